@@ -98,12 +98,68 @@ def ood(reason: str) -> dict:
 _FUNCS: dict = {}
 
 
+WATCHDOG: dict = {}  # case-function name -> seconds; such cases run in a forked child that is killed on timeout
+
+
+def run_forked(func, arg, seconds):
+    """Run func(arg) in a forked child; returns ("ok", value) | ("hang", None) | ("died", info).
+    Needed where the code under test can spin forever inside C (LAPACK on non-finite input)."""
+    import pickle
+    import select
+    import signal
+
+    r, w = os.pipe()
+    pid = os.fork()
+    if pid == 0:
+        try:
+            os.close(r)
+            try:
+                data = pickle.dumps(("ok", func(arg)))
+            except BaseException as e:  # noqa: BLE001
+                data = pickle.dumps(("exc", (type(e).__name__, str(e)[:500], traceback.format_exc()[-2500:])))
+            with os.fdopen(w, "wb") as f:
+                f.write(data)
+        finally:
+            os._exit(0)
+    os.close(w)
+    chunks, hung, t0 = [], False, time.time()
+    with os.fdopen(r, "rb") as f:
+        while True:
+            left = seconds - (time.time() - t0)
+            if left <= 0 or not select.select([f], [], [], left)[0]:
+                hung = True
+                break
+            b = f.read(1 << 16)
+            if not b:
+                break
+            chunks.append(b)
+    if hung:
+        os.kill(pid, signal.SIGKILL)
+    os.waitpid(pid, 0)
+    if hung:
+        return "hang", None
+    if not chunks:
+        return "died", None
+    return pickle.loads(b"".join(chunks))
+
+
 def _call(args):
     fname, case = args
     try:
         with warnings.catch_warnings():
             warnings.simplefilter("ignore")
-            res = _FUNCS[fname](case)
+            if fname in WATCHDOG:
+                status, val = run_forked(_FUNCS[fname], case, WATCHDOG[fname])
+                if status == "ok":
+                    res = val
+                elif status == "exc":
+                    res = {"status": "ok", "key": None, "outcome": "exception", "violations": [
+                        V("unexpected-exception/" + val[0], message=val[1], traceback=val[2])]}
+                else:
+                    res = {"status": "ood", "reason": f"watchdog-{status}-after-{WATCHDOG[fname]}s", "key": None,
+                           "outcome": None, "violations": [], "watchdog": status}
+            else:
+                res = _FUNCS[fname](case)
     except Exception as e:  # harness or implementation crash: reported as a violation of its own
         res = {
             "status": "ok",
@@ -146,6 +202,7 @@ class Run:
         self._pool = None
         _FUNCS.clear()
         _FUNCS.update(funcs)
+        self.watchdog_cases: list = []
 
     # ------------------------------------------------------------------ execution
     def pool(self):
@@ -184,6 +241,8 @@ class Run:
         part = part or fname
         st = self.parts.setdefault(part, {"cases": 0, "ood": 0, "violations": 0, "wall_s": 0.0})
         self.evaluations += 1
+        if res.get("watchdog"):
+            self.watchdog_cases.append(jsonable(case))
         if res.get("status") == "ood":
             self.ood += 1
             st["ood"] += 1
@@ -277,6 +336,8 @@ class Run:
                 traces_validated_against_impl=self.traces,
                 max_depth=self.max_depth,
             )
+        if self.watchdog_cases:
+            cov["watchdog_killed_cases"] = self.watchdog_cases[:20]
         cov.update(jsonable(self.extra))
         ev = {
             "property_id": self.pid,
